@@ -265,6 +265,11 @@ class DescriptorTransaction(_TransactionBase):
         """Write entities in order parents first."""
         written_handles = []
         ent_dict = {ent.handle: ent for ent in entities}
+        for handle in ent_dict:
+            # check all entities before writing any of them
+            if handle in self.descriptor_updates:
+                msg = f'Entity {handle} already in updated set!'
+                raise ValueError(msg)
         while len(written_handles) < len(ent_dict):
             for handle, ent in ent_dict.items():
                 write_now = not(ent.parent_handle is not None
@@ -768,6 +773,15 @@ class ContextStateTransaction(_TransactionBase):
                   modified_handles: list[str],
                   adjust_version_counter: bool = True):
         """Insert or update a context state in mdib."""
+        for handle in modified_handles:
+            # check all handles before writing any of them
+            state_container = entity.states.get(handle)
+            if state_container is None:
+                if self._mdib.context_states.handle.get_one(handle, allow_none=True) is None:
+                    msg = f'invalid handle {handle}!'
+                    raise KeyError(msg)
+            elif not state_container.is_context_state:
+                raise ApiUsageError('Transaction only handles context states!')
         for handle in modified_handles:
             state_container = entity.states.get(handle)
             old_state = self._mdib.context_states.handle.get_one(handle, allow_none=True)
